@@ -220,7 +220,9 @@ class BaseFeatureWriter:
                 else:
                     index = statements.index(block) + 1
                     # Split statements after the insertFeatureMarker into a new block
-                    afterBlock = ast.FeatureBlock(block.name)
+                    afterBlock = ast.FeatureBlock(
+                        block.name, use_extension=block.use_extension
+                    )
                     afterBlock.statements = block.statements[markerIndex:]
                     statements.insert(index, afterBlock)
                     # And remove them from the original block
